@@ -88,6 +88,8 @@ def gen_trajectory(rng, kind, uniq_base=0, n=None, shuffle=False, hostile=True):
         rng.shuffle(rest)
         times = [times[0]] + rest
     states, spec = [], []
+    # time steps taken from an integer array (np.arange) are numpy integers: the validity helpers accept them
+    np_time = rng.random() < 0.2
     for j, t in enumerate(times):
         vals = {}
         for fi, name in enumerate(fields):
@@ -99,7 +101,7 @@ def gen_trajectory(rng, kind, uniq_base=0, n=None, shuffle=False, hostile=True):
                 vals[name] = np.array([one(0), one(1)], dtype=object if rng.random() < 0.0 else float)
             else:
                 vals[name] = one(0)
-        states.append(cls(time_step=t, **vals))
+        states.append(cls(time_step=(np.int64(t) if np_time else t), **vals))
         spec.append((t, {k: (list(map(float, v)) if k == "position" else v) for k, v in vals.items()}))
     return Trajectory(times[0], states), spec
 
